@@ -37,10 +37,17 @@ impl AuthenticationAdapter for MojangAdapter {
         let hash = minecraft_hash(&self.server_id, shared_secret, encoded_public);
 
         // issue a request to Mojang's authentication endpoint
+        // the username is chosen by the client, it has to be encoded as query parameter value
         let username = user.0;
-        let url = format!(
-            "https://sessionserver.mojang.com/session/minecraft/hasJoined?username={username}&serverId={hash}"
-        );
+        let url: String = reqwest::Url::parse_with_params(
+            "https://sessionserver.mojang.com/session/minecraft/hasJoined",
+            &[("username", username), ("serverId", hash.as_str())],
+        )
+        .map_err(|err| passage_adapters::Error::FailedFetch {
+            adapter_type: "mojang",
+            cause: Box::new(err),
+        })?
+        .into();
         // verification hook: replace the session server origin, path and query stay as built above
         #[cfg(feature = "verif-hooks")]
         let url = match std::env::var("PASSAGE_VERIF_SESSION_BASE") {
